@@ -391,7 +391,7 @@ func (r *c09Run) sweepSharp() {
 // takes; where the model raises the implementation raises.
 func (r *c09Run) sweepCursor() {
 	c := r.c
-	nums := []string{"0", "1", "2", "3", "5", "9", "10", "11", "255", "4294967295", "4294967296", "9223372036854775806", "9223372036854775807", "9223372036854775808", "18446744073709551616"}
+	nums := []string{"0", "1", "2", "3", "5", "9", "10", "11", "255", "4294967295", "4294967296", "9223372036854775806", "9223372036854775807"} // parameters are Go ints: a larger literal is a parse error of the directive
 	n := c.Scale(6000, 60000)
 	var cases []c09Case
 	var reqs []string
